@@ -35,6 +35,9 @@ func verifAssert(label string, c bool) {
 
 //@ func TxHeaderFromProto
 //@   ensures nonnil: hdr != nil ==> r0 != nil
+//@   ensures c01b_fields: hdr != nil ==> r0.ID == hdr.Id && r0.BlTxID == hdr.BlTxId && r0.Ts == hdr.Ts
+//@   &&   r0.Version == int(hdr.Version) && r0.NEntries == int(hdr.Nentries)
+//@   ensures c01b_def_alh: hdr != nil ==> r0.Alh() == Ghost_HdrAlh(hdr)
 //@   assigns nothing
 
 //@ func InclusionProofFromProto
@@ -54,4 +57,8 @@ func verifAssert(label string, c bool) {
 
 //@ func DualProofV2FromProto
 //@   ensures nonnil: dproof != nil ==> r0 != nil
+//@   ensures c01b_source: dproof != nil && dproof.SourceTxHeader != nil ==> r0.SourceTxHeader != nil
+//@   &&   r0.SourceTxHeader.ID == dproof.SourceTxHeader.Id && r0.SourceTxHeader.BlTxID == dproof.SourceTxHeader.BlTxId
+//@   ensures c01b_target: dproof != nil && dproof.TargetTxHeader != nil ==> r0.TargetTxHeader != nil
+//@   &&   r0.TargetTxHeader.ID == dproof.TargetTxHeader.Id && r0.TargetTxHeader.BlTxID == dproof.TargetTxHeader.BlTxId
 //@   assigns nothing
